@@ -22,6 +22,18 @@ ops (every index is taken modulo the current number of values; not applicable ->
   ["drain", from_end]        remove every value one by one
   ["reformat"] ["noreformat"]  mode switches
   ["reopen"]                 close the view (all post-conditions are checked) and open a new one
+  ["reenter"]                close the view (all post-conditions are checked) and enter the SAME view
+                             object again: the list and the references captured earlier live on
+  ["formatter", which, force]  view.value_formatter(FORMATTERS[which][, force_reformat=force]);
+                             which in FORMATTER_NAMES, force in (None = argument omitted, False, True)
+  ["append_comment", text]   a comment line after the last value (no effect on the list)
+  ["append_newline"]         a line break after the last value (no effect on the list)
+  ["append_separator", space_after]   comma lists only (no effect on the list: empty items)
+  ["read", how]              read the open view: how in ("iter", "refs")
+  ["probe_open", how]        a SECOND view of the same field is entered and only read
+                             (how in PROBE_READS); it stays alive across reopen/reenter
+  ["probe_close"]            ... and is closed: the document must not change at that moment
+                             (a probe still alive at the end of the history is closed last)
 """
 import itertools
 import re
@@ -29,6 +41,9 @@ import re
 from hypothesis import strategies as st
 
 KINDS = ("ws", "comma")
+FORMATTER_NAMES = ("lib", "line", "lead")     # see props/c11.py FORMATTERS
+READS = ("iter", "refs")
+PROBE_READS = ("iter", "refs", "none")
 NAME_RE = re.compile(r"^[A-Za-z][A-Za-z0-9-]*$")
 FIELD_LINE_RE = re.compile(r"^([A-Za-z][A-Za-z0-9-]*):.*$")
 
@@ -179,12 +194,21 @@ def invalid(case):
             shape = {"append": (str,), "remove": (int,), "replace": (int, str),
                      "ref_set": (int, str, bool), "ref_remove": (int, bool),
                      "remove_absent": (str,), "replace_absent": (str, str), "drain": (bool,),
-                     "reformat": (), "noreformat": (), "reopen": ()}.get(k)
+                     "reformat": (), "noreformat": (), "reopen": (), "reenter": (),
+                     "formatter": (str, (bool, type(None))), "append_comment": (str,),
+                     "append_newline": (), "append_separator": (bool,),
+                     "read": (str,), "probe_open": (str,), "probe_close": ()}.get(k)
             if shape is None or len(op) != 1 + len(shape):
                 return "op shape"
             for a, t in zip(op[1:], shape):
                 if not isinstance(a, t) or (t is int and (isinstance(a, bool) or a < 0)):
                     return "op argument"
+            choice = {"formatter": FORMATTER_NAMES, "read": READS,
+                      "probe_open": PROBE_READS}.get(k)
+            if choice is not None and op[1] not in choice:
+                return "op choice"
+            if k == "append_comment" and not ("\n" not in op[1] and all(_ok_char(c) for c in op[1])):
+                return "comment text"
         return None
     except (KeyError, TypeError, IndexError):
         return "structure"
@@ -293,17 +317,28 @@ NEW_VALUE = {
 }
 
 
+COMMENT_TEXTS = ["c", "about the next one", "", "#", "# a, b", "#x", " padded ", "a, b", "é 漢", "#\tc ,"]
+_comment_text = st.one_of(st.sampled_from(COMMENT_TEXTS), st.sampled_from(COMMENT_TEXTS),
+                          st.text(alphabet=ALPHA + " ,", min_size=1, max_size=4))
+_formatter = st.tuples(st.just("formatter"), st.sampled_from(FORMATTER_NAMES),
+                       st.sampled_from([None, None, False, True]))
+
+
 def _op_strategy(kind):
+    """Strategy for a *chunk*: a list of one op, or of a few ops that belong together."""
     v = NEW_VALUE[kind]
     idx = st.integers(0, 7)
-    return st.one_of(
-        st.tuples(st.just("append"), v),
-        st.tuples(st.just("append"), v),
+    append = st.tuples(st.just("append"), v)
+    comment = st.tuples(st.just("append_comment"), _comment_text)
+    ref_set = st.tuples(st.just("ref_set"), idx, v, st.booleans())
+    one = st.one_of(
+        append,
+        append,
         st.tuples(st.just("remove"), idx),
         st.tuples(st.just("remove"), idx),
         st.tuples(st.just("remove"), idx),
         st.tuples(st.just("replace"), idx, v),
-        st.tuples(st.just("ref_set"), idx, v, st.booleans()),
+        ref_set,
         st.tuples(st.just("ref_remove"), idx, st.booleans()),
         st.tuples(st.just("ref_remove"), idx, st.booleans()),
         st.tuples(st.just("remove_absent"), v),
@@ -313,6 +348,23 @@ def _op_strategy(kind):
         st.just(("reformat",)),
         st.just(("noreformat",)),
         st.just(("reopen",)),
+        st.just(("reenter",)),
+        _formatter,
+        _formatter,
+        comment,
+        st.just(("append_newline",)),
+        st.tuples(st.just("append_separator"), st.booleans()),
+        st.tuples(st.just("read"), st.sampled_from(READS)),
+        st.tuples(st.just("probe_open"), st.sampled_from(PROBE_READS)),
+        st.just(("probe_close",)),
+    )
+    return st.one_of(
+        one.map(lambda op: [op]), one.map(lambda op: [op]), one.map(lambda op: [op]),
+        one.map(lambda op: [op]), one.map(lambda op: [op]), one.map(lambda op: [op]),
+        one.map(lambda op: [op]), one.map(lambda op: [op]), one.map(lambda op: [op]),
+        st.tuples(comment, append).map(list),                       # a remark above a new entry
+        st.tuples(st.just(("append_newline",)), append).map(list),  # a new entry on its own line
+        st.tuples(st.just(("reenter",)), st.tuples(st.just("ref_set"), idx, v, st.just(False))).map(list),
     )
 
 
@@ -325,6 +377,8 @@ _eof = st.sampled_from([True, True, True, False])
 _observe = st.sampled_from([True, True, False])
 _noop = st.integers(0, 9)
 _reopens = st.integers(0, 2)
+_noop_op = st.sampled_from([("reopen",), ("reopen",), ("reenter",), ("read", "refs"), ("read", "iter"),
+                            ("formatter", "lib", None), ("probe_open", "refs"), ("probe_close",)])
 
 
 @st.composite
@@ -332,9 +386,9 @@ def gen_case(draw, maxops=5, maxlines=4):
     """maxops in (5, 8), maxlines in (4, 6)."""
     kind = draw(_kind)
     first, rest = _list_field(draw, kind, maxlines)
-    hist = draw(HISTORY[(kind, maxops)])
+    hist = [op for chunk in draw(HISTORY[(kind, maxops)]) for op in chunk]
     if draw(_noop) == 0:
-        hist = [("reopen",)] * draw(_reopens)      # the no-op family
+        hist = [draw(_noop_op) for _ in range(draw(_reopens))]      # the no-op family
     return {"kind": kind, "name": draw(_name), "head": draw(_head),
             "first": first, "rest": rest, "tail": draw(_tail), "eof_nl": draw(_eof),
             "observe": draw(_observe), "history": [list(op) for op in hist]}
@@ -390,6 +444,34 @@ def enum_cases(maxrest, pairs):
                     for i in range(n):
                         for j in range(n - 1):
                             hists.append(([["remove", i], ["ref_remove", j, False]], (i + j) % 2 == 0))
+                # what trails the list when a value is appended: comment / line break / separator
+                more = [[["append_comment", "c"], ["append", "z"]],
+                        [["reformat"], ["append_comment", "c"], ["append", "z"]],
+                        [["append", "y"], ["append_comment", "# c, d"], ["append", "z"]],
+                        [["append_newline"], ["append", "z"]],
+                        [["append_separator", n % 2 == 0], ["append", "z"]],
+                        [["append_comment", ""], ["append", "z"], ["remove", n]]]
+                # a formatter chosen before / after / without an edit, forced or not
+                for which in FORMATTER_NAMES:
+                    more += [[["append", "z"], ["formatter", which, None]],
+                             [["formatter", which, True]],
+                             [["formatter", which, None], ["append", "z"]]]
+                more += [[["formatter", "lib", False]],
+                         [["append", "z"], ["formatter", "lead", True], ["reopen"], ["append", "y"]]]
+                for i in range(n):
+                    which = FORMATTER_NAMES[i % len(FORMATTER_NAMES)]
+                    more += [[["remove", i], ["formatter", which, None if i % 2 else False]],
+                             [["ref_set", i, "z", True], ["formatter", "lib", None]]]
+                    # references captured in the first session, used in the second one
+                    more += [[["reenter"], ["ref_set", i, "z", False]],
+                             [["ref_set", (i + 1) % n, "y", False], ["reenter"], ["ref_remove", i, False]]]
+                # a second view that only reads, alive while the field is edited
+                for how in PROBE_READS:
+                    more += [[["probe_open", how], ["append", "z"]]]
+                more += [[["append", "z"], ["probe_open", "refs"], ["probe_close"], ["remove", 0]],
+                         [["probe_open", "refs"], ["replace", n - 1, "z"], ["reopen"], ["probe_close"]],
+                         [["read", "refs"]], [["read", "refs"], ["reenter"], ["read", "iter"]]]
+                hists += [(h, k % 3 != 1) for k, h in enumerate(more)]
                 for h, observe in hists:
                     yield {"kind": kind, "name": "F", "head": ["A: 1"], "first": first, "rest": rest,
                            "tail": ["Z: 2"], "eof_nl": True, "observe": observe, "history": h}
